@@ -7,6 +7,7 @@ import (
 	"math/rand"
 	"os"
 	"os/exec"
+	"reflect"
 	"regexp"
 	"strings"
 	"testing"
@@ -70,26 +71,29 @@ func wireGrid(thorough bool) []wireScenario {
 			g = append(g, wireScenario{Kind: "routed", Type: t, Param: p})
 		}
 	}
+	for i, sm := range seedMessages() {
+		g = append(g, wireScenario{Kind: "variant", Type: sm.Name, Param: i})
+	}
 	for _, t := range allMessageTypes {
 		g = append(g, wireScenario{Kind: "connect", Type: t})
 	}
 	n := 8
 	if thorough {
-		n = 60
+		n = 30
 	}
 	for p := 0; p < n; p++ {
 		g = append(g, wireScenario{Kind: "connect", Type: "malformed", Param: p})
 	}
 	n = 48
 	if thorough {
-		n = 600
+		n = 200
 	}
 	for p := 0; p < n; p++ {
 		g = append(g, wireScenario{Kind: "malformed", Type: "malformed", Param: p})
 	}
 	n = 60
 	if thorough {
-		n = 1500
+		n = 700
 	}
 	for p := 0; p < n; p++ {
 		g = append(g, wireScenario{Kind: "storm", Type: "mixed", Param: p})
@@ -134,7 +138,7 @@ func TestC12WireFrames(t *testing.T) {
 	byEnc := map[string][]seedEncoding{"protobuf": seedsOf(seeds, "protobuf"), "json": seedsOf(seeds, "json")}
 	grid := wireGrid(env.Thorough())
 	meta := vrun.Meta{Property: "C12", Workload: "TestC12WireFrames", Total: len(grid),
-		Rule:        "grid over a live wire.ClientConn (case i uses protobuf when i is even, JSON when odd): (collision) for each of the 7 request calls x each of the 29 message types, the peer answers the in-flight request with a well-formed frame of that type carrying the request's id, followed by the proper reply; (disconnect-no-reply) a Disconnect instead of the reply; (unsolicited) every message type with a stale, odd, huge or zero request id while nothing is in flight; (routed) stream-routed frames to subscribed/unsubscribed aliases and known/unknown source nodes, floods of call frames; (connect) every type and malformed bytes as the first frame wire.Connect reads; (malformed) corrupted encodings on an established connection; (storm) a request in flight while the peer sends 5-40 drawn frames of any non-colliding kind plus malformed ones before the reply. After each injection the fixed cooperative call sequence must return. Non-trivial: the injected frames were written and the connection answered or reported an error for every cooperative call; distinct: scenario string.",
+		Rule:        "grid over a live wire.ClientConn (case i uses protobuf when i is even, JSON when odd; cases with i mod 4 >= 2 attach a second, unreliable transport that receives the unsolicited/variant/malformed frames too): (collision) for each of the 7 request calls x each of the 29 message types, the peer answers the in-flight request with a well-formed frame of that type carrying the request's id, followed by the proper reply; (disconnect-no-reply) a Disconnect instead of the reply; (unsolicited) every message type with a stale, odd, huge or zero request id while nothing is in flight; (routed) stream-routed frames to subscribed/unsubscribed aliases and known/unknown source nodes, floods of call frames; (variant) every variant of the valid corpus (all nine metadata kinds, alias/info chunks, ...) routed to live subscriptions; (connect) every type and malformed bytes as the first frame wire.Connect reads; (malformed) corrupted encodings on an established connection; (storm) a request in flight while the peer sends 5-40 drawn frames of any non-colliding kind (in 3 of 10 storms also undecodable ones) before the reply. After each injection the fixed cooperative call sequence must return. Non-trivial: the injected frames were written and the connection answered or reported an error for every cooperative call; distinct: scenario string.",
 		Assumptions: wireAssumptions}
 	vrun.Loop(t, meta, 0, func(c *vrun.Case) vrun.Result {
 		sc := grid[c.Index]
@@ -195,7 +199,9 @@ func runWireScenario(c *vrun.Case, sc wireScenario, e enc, seeds []seedEncoding)
 		return r
 	}
 
-	w, err := dial(e, wirePingInterval, wirePingTimeout, nil)
+	unreliable := c.Index%4 >= 2 // half of the cases attach a second (unreliable) transport, fed with the same frames
+	desc["unreliable_transport"] = unreliable
+	w, err := dialU(e, wirePingInterval, wirePingTimeout, nil, unreliable)
 	if err != nil {
 		r := vrun.Inconcl("could not establish the connection: " + err.Error())
 		r.Desc = desc
@@ -277,13 +283,13 @@ func runWireScenario(c *vrun.Case, sc wireScenario, e enc, seeds []seedEncoding)
 			id = 0
 		}
 		fm, _ := frameOf(sc.Type, id)
-		w.br.send(w.br.encode(fm))
+		w.inject(w.br.encode(fm))
 		injected++
 
 	case "malformed":
 		n := 1 + rng.Intn(4)
 		for i := 0; i < n; i++ {
-			w.br.send(hostileFrameNoKill(rng, seeds, e))
+			w.inject(hostileFrameNoKill(rng, seeds, e))
 			injected++
 		}
 
@@ -291,6 +297,22 @@ func runWireScenario(c *vrun.Case, sc wireScenario, e enc, seeds []seedEncoding)
 		f := runRouted(c, sc, w, ctx, &injected)
 		if f != nil {
 			return wireViolation(f, desc)
+		}
+
+	case "variant":
+		// every variant of the valid corpus (all metadata kinds, alias/info chunks, rich/minimal forms), routed to live
+		// subscriptions where the message has a stream alias, with a request id that cannot be outstanding
+		const alias = 5
+		_, _ = w.conn.SubscribeDownstreamMeta(ctx, alias, "src-known")
+		_, _ = w.conn.SubscribeDownstreamChunk(ctx, alias, message.QoSReliable)
+		_, _ = w.conn.SubscribeDownstreamChunkAckComplete(ctx, alias)
+		if unreliable {
+			_, _ = w.conn.SubscribeDownstreamChunk(ctx, alias, message.QoSUnreliable)
+		}
+		fm := variantFrame(sc.Param, alias, "src-known", 1+2*uint32(rng.Intn(1000)))
+		for i := 0; i < 3; i++ {
+			w.inject(w.br.encode(fm))
+			injected++
 		}
 
 	case "storm":
@@ -305,8 +327,13 @@ func runWireScenario(c *vrun.Case, sc wireScenario, e enc, seeds []seedEncoding)
 			id := m.(message.Request).GetRequestID()
 			var frames [][]byte
 			n := 5 + rng.Intn(36)
+			withMalformed := rng.Intn(10) < 3 // an undecodable frame ends the read loop: most storms stay decodable
 			for i := 0; i < n; i++ {
-				switch rng.Intn(6) {
+				kind := 1 + rng.Intn(5)
+				if withMalformed && rng.Intn(n) == 0 {
+					kind = 0
+				}
+				switch kind {
 				case 0:
 					frames = append(frames, hostileFrameNoKill(rng, seeds, e))
 				case 1: // a non-request frame, or the proper reply type, with the in-flight id
@@ -377,6 +404,9 @@ func runWireScenario(c *vrun.Case, sc wireScenario, e enc, seeds []seedEncoding)
 		r.Stat("wire_cases_connection_reported_error_or_closed", 1)
 	}
 	r.AddSet("wire_scenarios", sc.Kind+":"+sc.Type)
+	if unreliable {
+		r.Stat("wire_cases_with_unreliable_transport", 1)
+	}
 	if callOutcome != "" {
 		r.AddSet("wire_call_outcomes", sc.Kind+":"+callOutcome)
 	}
@@ -623,4 +653,21 @@ func TestC12WireKeepalive(t *testing.T) {
 		r.Desc = desc
 		return r
 	})
+}
+
+// variantFrame copies the k-th message of the valid corpus and points it at the subscribed alias / source node.
+func variantFrame(k int, alias uint32, src string, id uint32) message.Message {
+	orig := reflect.ValueOf(seedMessages()[k].Msg).Elem()
+	cp := reflect.New(orig.Type())
+	cp.Elem().Set(orig)
+	if f := cp.Elem().FieldByName("StreamIDAlias"); f.IsValid() {
+		f.SetUint(uint64(alias))
+	}
+	if f := cp.Elem().FieldByName("SourceNodeID"); f.IsValid() {
+		f.SetString(src)
+	}
+	if f := cp.Elem().FieldByName("RequestID"); f.IsValid() {
+		f.SetUint(uint64(id))
+	}
+	return cp.Interface().(message.Message)
 }
